@@ -114,9 +114,27 @@ class Prop:
         return None
 
 
+def claimed_len(res):
+    """number of leading operations of the implementation trace the properties speak about: everything before the
+    first successful seek (K line.byte) whose target is NOT the position of an item of the Spec stream -- seeks to
+    arbitrary offsets are outside the claims (DESIGN.md section 7), whatever happens after one is not judged"""
+    case = res.get('case', '')
+    if ' K' not in case and ',K' not in case:
+        return len(res['impl'])
+    f = fmt_of(case)
+    starts = set(it['pos'] for it in oracles.parse_spec(f, res.get('spec') or []) if it['pos'] != '-')
+    for i, l in enumerate(res['impl']):
+        pl = parse_line(l)
+        if pl['op'].startswith('K') and pl['kind'] == 'ok':
+            a, b = pl['op'][1:].split('.')
+            if '%s:%s' % (a, b) not in starts:
+                return i + 1
+    return len(res['impl'])
+
+
 def abnormal(res):
     bad = []
-    for i, l in enumerate(res['impl']):
+    for i, l in enumerate(res['impl'][:claimed_len(res)]):
         pl = parse_line(l)
         if pl['kind'] in ('panic', 'hang') or pl['op'] == '?':
             bad.append('op#%d %s' % (i, l[:60]))
@@ -319,11 +337,17 @@ class C05(Prop):
     def hist(self, rng, text, f):
         k = gen.n_items_bound(f, text)
         ops = []
+        pos = gen.record_positions(f, text)
+        if pos and rng.chance(1, 4):
+            # a seek as the very first call on a new reader (positions known from an index, say)
+            ops.append(gen.kseek(rng, pos))
+            ops += [rng.choice(['N', 'N', 'S0', 'O'])] * rng.range(1, 3)
+            ops.append('P')
         for i in range(k):
             ops.append(rng.choice(['N', 'N', 'N', 'S0', 'E0.2']))
             ops.append('P')
         for _ in range(rng.range(1, 4)):
-            ops.append('J%d' % rng.below(16))
+            ops.append(gen.kseek(rng, pos) if pos and rng.chance(1, 3) else 'J%d' % rng.below(16))
             ops += [rng.choice(['N', 'N', 'S0', 'O'])] * rng.range(1, 3)
             if rng.chance(1, 2):
                 ops.append('P')
@@ -336,6 +360,29 @@ class C05(Prop):
             out += gen.structured(f, rng, n, malformed_share=5, ops_fn=lambda r, t: self.hist(r, t, f))
             L = 5 if tier == 'quick' else 7
             out += gen.exhaustive(f, L, ops_fn=lambda s: ['N', 'P', 'N', 'P', 'N', 'J0', 'N', 'J1', 'N', 'N'], chunks=[[]])
+
+            def fresh_seek(s, f=f):
+                pos = gen.record_positions(f, s)
+                if not pos:
+                    return ['N']
+                return ['K%d.%d' % pos[-1], 'N', 'P', 'N', 'K%d.%d' % pos[0], 'N', 'P', 'N']
+            out += gen.exhaustive(f, L, ops_fn=fresh_seek, chunks=[[]])
+            # "from any reader state": also the states a source failure leaves behind (reader finished with its
+            # buffer dropped, or still new with a partly filled buffer) -- a read fails at the j-th read call,
+            # then seeks to record positions, each followed by reads and position queries
+            for _ in range(n // 4):
+                cap = rng.choice([3, 4, 5, 7, 8, 13, 16, 32, 64])
+                text = gen.fasta_file(rng, cap) if f == 'fa' else gen.fastq_file(rng, cap)
+                pos = gen.record_positions(f, text)
+                if not pos:
+                    continue
+                j = rng.below(len(text) // cap + 3)
+                base = ['D%d' % rng.below(4) for _ in range(j)] if rng.chance(1, 2) else ['D9999'] * j
+                rs = base + ['F%d' % rng.range(1, 8)]
+                ops = [rng.choice(['N', 'N', 'S0'])] * rng.range(1, 4)
+                for _k in range(rng.range(1, 3)):
+                    ops += [gen.kseek(rng, pos)] + [rng.choice(['N', 'N', 'S0', 'O']), 'P'] * rng.range(1, 3)
+                out.append(gen.mkcase(f, cap, text, rs, None, gen.rnd_policy(rng), ops + ['N', 'P']))
         return out
 
     def project(self, pl):
@@ -1313,7 +1360,7 @@ class C06(Prop):
         keys = [oracles.rec_key(f, it['f']) if it['kind'] == 'rec' else None for it in items]
         last = -1
         faulted = False
-        for i, l in enumerate(res['impl']):
+        for i, l in enumerate(res['impl'][:claimed_len(res)]):
             pl = parse_line(l)
             if fault_events(pl['ev']):
                 faulted = True
@@ -1413,6 +1460,25 @@ class C18(Prop):
             text = b''.join(blocks)
             cap = rng.choice([48, 64, 96, 128])
             out.append('al %s %d %s set 100000' % (f, cap, gen.hx(text)))
+        # exact-count batches into one reused set, and single reads followed by batches (the first batch then
+        # starts in the middle of the buffer): uniform records; judged against the model's prediction only
+        for _ in range(n // 2):
+            f = rng.choice(['fa', 'fq'])
+            m = rng.choice([1, 3, 8, 14, 20])
+            R = rng.choice([30, 60, 120])
+            t = b'\r\n' if rng.chance(1, 5) else b'\n'
+            recs = []
+            for i in range(R):
+                h = b'r%d' % (i % 10)
+                if f == 'fa':
+                    recs.append(b'>' + h + t + rnd_seq(rng, m).replace(b'*', b'A') + t)
+                else:
+                    recs.append(b'@' + h + t + rnd_seq(rng, m) + t + b'+' + t + rnd_seq(rng, m).replace(b'-', b'I') + t)
+            text = b''.join(recs)
+            one = len(recs[0])
+            cap = rng.choice([one + 1, 2 * one + 3, 3 * one - 1, 5 * one, 7 * one + 2, 64, 256])
+            mode = rng.choice(['x1', 'x2', 'x3', 'x%d' % rng.range(4, 9), 'm%d' % rng.range(1, 12), 'm%d' % rng.range(1, 40)])
+            out.append('al %s %d %s %s 100000' % (f, max(3, cap), gen.hx(text), mode))
         return out
 
     def extra(self, tier, rng, stats):
